@@ -17,6 +17,10 @@
 
 .. rubric:: Contents
 
+* :class:`_PrehashedSHA1`
+
+    * :meth:`_PrehashedSHA1.digest`
+
 * :class:`PycryptodomeAuthSigner`
 
     * :meth:`PycryptodomeAuthSigner.GetPublicKey`
@@ -24,9 +28,36 @@
 
 """
 
-from Crypto.Hash import SHA256
+from Crypto.Hash import SHA1
 from Crypto.PublicKey import RSA
 from Crypto.Signature import pkcs1_15
+
+
+class _PrehashedSHA1(object):
+    """Stands in for a ``Crypto.Hash.SHA1`` object whose digest is the provided (already hashed) data.
+
+    Parameters
+    ----------
+    digest : bytes, bytearray
+        The data that will be signed as if it were a SHA-1 digest
+
+    """
+    oid = SHA1.new().oid
+    digest_size = SHA1.digest_size
+
+    def __init__(self, digest):
+        self._digest = bytes(digest)
+
+    def digest(self):
+        """Return the provided data
+
+        Returns
+        -------
+        bytes
+            The data that was provided to the constructor
+
+        """
+        return self._digest
 
 
 class PycryptodomeAuthSigner(object):
@@ -69,8 +100,8 @@ class PycryptodomeAuthSigner(object):
             The signed ``data``
 
         """
-        h = SHA256.new(data)
-        return pkcs1_15.new(self.rsa_key).sign(h)
+        # ``data`` is the token sent by the device, which ``adbd`` treats as an already computed SHA-1 digest
+        return pkcs1_15.new(self.rsa_key).sign(_PrehashedSHA1(data))
 
     def GetPublicKey(self):
         """Returns the public key in PEM format without headers or newlines.
